@@ -24,6 +24,7 @@ import (
 	"sort"
 	"strings"
 	"time"
+	"unsafe"
 
 	"github.com/pinealctx/neptune/bytex"
 
@@ -58,10 +59,51 @@ type val struct {
 	b []byte
 }
 
+// refLen: payloads above this many bytes are rendered by reference.
+const refLen = 256
+
+// tokStr renders a string / raw payload: the bytes themselves or, above refLen, the reference
+// <<-1, length, FNV-1a 64 digest as 4 limbs, first 4 bytes, last 4 bytes>> - the same function of
+// the bytes wherever a payload is logged, so TLC compares long payloads by reference.  It takes a
+// string so that a retained string is read where it is (no conversion, no copy).
+func tokStr(s string) []int {
+	if len(s) <= refLen {
+		return tr.Str(s)
+	}
+	h := uint64(14695981039346656037)
+	for i := 0; i < len(s); i++ {
+		h ^= uint64(s[i])
+		h *= 1099511628211
+	}
+	r := append([]int{-1, len(s)}, tr.Limbs(h)...)
+	for _, c := range []byte(s[:4] + s[len(s)-4:]) {
+		r = append(r, int(c))
+	}
+	return r
+}
+
+func tokBytes(b []byte) []int {
+	if len(b) <= refLen {
+		return tr.Ints(b)
+	}
+	return tokStr(*(*string)(unsafe.Pointer(&b))) // read in place
+}
+
+// pattern: n bytes determined by id (plans name long payloads as <<-1, n, id>>)
+func pattern(n, id int) []byte {
+	b := make([]byte, n)
+	x := uint32(id)*2654435761 + 12345
+	for i := range b {
+		x = x*1664525 + 1013904223
+		b[i] = byte(x >> 24)
+	}
+	return b
+}
+
 func (v val) tok() []int {
 	switch v.t {
 	case "str", "raw":
-		return tr.Ints(v.b)
+		return tokBytes(v.b)
 	case "bool", "u8", "u16":
 		return []int{int(v.u)}
 	case "i16":
@@ -128,6 +170,16 @@ func randBytes(rng *rand.Rand, n int) []byte {
 		}
 	}
 	return b
+}
+
+// blockLen: payload sizes at and around internal block sizes: k*2^j and k*2^j +- 1
+func blockLen(rng *rand.Rand) int {
+	j := []int{256, 512, 1024, 4096, 8192, 65536}[rng.Intn(6)]
+	k := rng.Intn(4) + 1
+	if j == 65536 && k > 2 {
+		k = 1
+	}
+	return k*j + rng.Intn(3) - 1
 }
 
 func randLen(rng *rand.Rand, big bool) int {
@@ -273,9 +325,9 @@ func (a ans) tok() []int {
 	}
 	switch a.t {
 	case "str":
-		return tr.Str(a.s)
+		return tokStr(a.s)
 	case "raw":
-		return tr.Ints(a.bs)
+		return tokBytes(a.bs)
 	}
 	return val{t: a.t, u: a.u}.tok()
 }
@@ -923,6 +975,9 @@ func bytesOf(tok []int) []byte {
 func planVal(a act) val {
 	switch a.T {
 	case "str", "raw":
+		if len(a.Tok) == 3 && a.Tok[0] == -1 {
+			return val{t: a.T, b: pattern(a.Tok[1], a.Tok[2])}
+		}
 		return val{t: a.T, b: bytesOf(a.Tok)}
 	}
 	tb, ok := table[a.T]
@@ -1108,7 +1163,8 @@ func (s *sess) randomRewrite(from int) {
 	}
 	var cands []int
 	for i := from; i < len(s.items); i++ {
-		if (s.items[i].v.t == "u32" || s.items[i].v.t == "raw") && s.items[i].n > 0 {
+		// (an exact replacement carries its bytes as the token: short payloads only)
+		if (s.items[i].v.t == "u32" || s.items[i].v.t == "raw") && s.items[i].n > 0 && s.items[i].n <= refLen {
 			cands = append(cands, i)
 		}
 	}
@@ -1190,12 +1246,24 @@ func lifetime(s *sess, rng *rand.Rand, i int, maxItems int, life int) {
 		return
 	}
 	big := i%9 == 0
+	// every fifth history: a few payloads whose sizes sit at and around internal block sizes
+	// (no rewrites there: their events carry whole buffer images)
+	block := i%5 == 2
 	nrw := 0
-	if rng.Intn(2) == 0 {
+	if rng.Intn(2) == 0 && !block {
 		nrw = rng.Intn(3) + 1
+	}
+	if block && n > 5 {
+		n = 5
 	}
 	for j := 0; j < n; j++ {
 		v, lim := randItem(rng, big)
+		if block && (j == 0 || rng.Intn(2) == 0) {
+			v, lim = val{t: []string{"str", "str", "raw"}[rng.Intn(3)], b: randBytes(rng, blockLen(rng))}, -1
+			if v.t == "str" && rng.Intn(3) == 0 {
+				lim = limFor(rng, len(v.b))
+			}
+		}
 		if i%7 == 3 && j == 1 {
 			v, lim = randVal(rng, "u32"), -1 // the placeholder idiom: u32 slot patched later
 		}
@@ -1229,13 +1297,17 @@ func lifetime(s *sess, rng *rand.Rand, i int, maxItems int, life int) {
 		cs = append(cs, c)
 	}
 	sort.Ints(cs)
-	if life > 0 && len(cs) > 6 { // later cycles: a sample of the truncation points
+	if (life > 0 || block) && len(cs) > 6 { // later cycles, long payloads: a sample of the truncation points
 		rng.Shuffle(len(cs), func(a, b int) { cs[a], cs[b] = cs[b], cs[a] })
 		cs = cs[:6]
 		sort.Ints(cs)
 	}
 	// the full round trip on copies with several chunkings (limits sometimes refuse)
-	s.doOpen(total, randKs(rng, 3), false)
+	nks := 3
+	if block {
+		nks = 5
+	}
+	s.doOpen(total, randKs(rng, nks), false)
 	s.readBack(rng.Intn(3) == 0, -1, false)
 	for _, c := range cs {
 		s.doOpen(c, randKs(rng, 2), false)
@@ -1243,7 +1315,7 @@ func lifetime(s *sess, rng *rand.Rand, i int, maxItems int, life int) {
 	}
 	// finally the buffer that was written to, itself; sometimes rewritten while being read
 	rwAt := -1
-	if rng.Intn(3) == 0 && len(s.items) > 1 {
+	if rng.Intn(3) == 0 && len(s.items) > 1 && !block {
 		rwAt = rng.Intn(len(s.items))
 	}
 	s.doOpen(total, randKs(rng, 3), true)
